@@ -299,6 +299,10 @@ func (f *Frame) evalSel(e *CExpr, env *Env) *Val {
 				if v := f.pkgConst(pkg, e.Name); v != nil {
 					return v
 				}
+				if gv, ok := pkg.Scope().Lookup(e.Name).(*types.Var); ok {
+					a := &Addr{Kind: AObj, Obj: IntLit(1), Key: "G$" + pkgQualifier(pkg) + "." + e.Name, T: gv.Type()}
+					return f.load(a, env.State)
+				}
 				f.E.fail("unknown constant %s.%s", e.A.Name, e.Name)
 			}
 		}
@@ -680,6 +684,18 @@ func (f *Frame) evalCall(e *CExpr, env *Env) *Val {
 			f.E.fail("value %s has no ghost component %s", e.Args[0], comp)
 		}
 		return intVal(g)
+	case "str":
+		// string(b) of a byte slice, in the current state
+		a := arg(0)
+		if a.K == VBytes {
+			return a
+		}
+		if a.K != VSlice || !f.E.Mode.Bytes {
+			f.E.fail("str() needs a []byte in bytes mode")
+		}
+		cur := env.State.Get("M$byte", ArrayS(IntS, ArrayS(IntS, IntS)))
+		f.E.noteVars(cur)
+		return &Val{K: VBytes, T: types.Typ[types.String], Arr: Select(cur, a.Base), Off: a.Off, Len: a.Len}
 	case "fn":
 		key := e.Args[0].String()
 		var args []*Val
@@ -703,6 +719,61 @@ func (f *Frame) evalCall(e *CExpr, env *Env) *Val {
 			f.E.fail("as() needs an interface value")
 		}
 		return &Val{K: VScalar, T: t, X: a.X}
+	case "matches", "rrun", "rstate":
+		rule := e.Args[0].Name
+		d := f.E.P.Rules[rule]
+		if d == nil {
+			f.E.fail("unknown token rule %s", rule)
+		}
+		f.E.Uses["re_"+rule] = true
+		f.E.Trusted["regexp: "+rule+".Find returns a member of the language of its expression; automaton extracted from the source with \\b/$ assertions dropped and bytes >= 0x80 as one symbol"] = true
+		if name == "rstate" {
+			if e.Args[1].K != "str" {
+				f.E.fail("rstate(rule, \"text\")")
+			}
+			return intVal(IntLit(int64(d.run(e.Args[1].Str))))
+		}
+		sv := arg(1)
+		var a, o, n *Term
+		switch sv.K {
+		case VBytes:
+			a, o, n = sv.Arr, sv.Off, sv.Len
+		case VSlice:
+			cur := env.State.Get("M$byte", ArrayS(IntS, ArrayS(IntS, IntS)))
+			f.E.noteVars(cur)
+			a, o, n = Select(cur, sv.Base), sv.Off, sv.Len
+		default:
+			f.E.fail("%s needs a bytes-mode string or []byte", name)
+		}
+		runAt := func(j *Term) *Term { return App(rule+"_run", IntS, a, o, n, j) }
+		if name == "rrun" {
+			return intVal(runAt(arg(2).X))
+		}
+		kb := Bound{Name: fmt.Sprintf("k!%d", f.E.nextQ()), S: IntS}
+		kv := Var(kb.Name, IntS)
+		j := Sub(kv, o)
+		step := Implies(And(Le(o, kv), Lt(kv, Add(o, n))),
+			And(Eq(runAt(Add(j, IntLit(1))), App(rule+"_delta", IntS, runAt(j), Select(a, kv))),
+				Neq(runAt(Add(j, IntLit(1))), App(rule+"_dead", IntS))))
+		q := Forall([]Bound{kb}, step)
+		if q.Op == "forall" {
+			q.Pat = []*Term{Select(a, kv)}
+		}
+		// the same step fact, triggered by an existing run term (lets the proof walk
+		// forward over bytes the code has not read yet)
+		jb := Bound{Name: fmt.Sprintf("j!%d", f.E.nextQ()), S: IntS}
+		jv := Var(jb.Name, IntS)
+		step2 := Implies(And(Le(IntLit(0), jv), Lt(jv, n)),
+			And(Eq(runAt(Add(jv, IntLit(1))), App(rule+"_delta", IntS, runAt(jv), Select(a, Add(o, jv)))),
+				Neq(runAt(Add(jv, IntLit(1))), App(rule+"_dead", IntS))))
+		q2 := Forall([]Bound{jb}, step2)
+		if q2.Op == "forall" {
+			q2.Pat = []*Term{runAt(jv)}
+		}
+		if c := f.E.TopC; c != nil && c.Opts["runtrigger"] == "off" {
+			q2 = True
+		}
+		return boolVal(And(Eq(runAt(IntLit(0)), App(rule+"_init", IntS)), q, q2, App(rule+"_acc", BoolS, runAt(n)), Ge(n, IntLit(0))))
 	case "istype":
 		a := arg(0)
 		tn := e.Args[1].String()
@@ -851,18 +922,19 @@ func (f *Frame) evalCall(e *CExpr, env *Env) *Val {
 func (f *Frame) detApply(key string, args []*Val) *Val {
 	e := f.E
 	var rt types.Type
+	pick := func(rs *types.Tuple) types.Type {
+		if rs.Len() == 1 {
+			return rs.At(0).Type()
+		}
+		if rs.Len() == 0 {
+			e.fail("fn(%s): function has no result", key)
+		}
+		return rs
+	}
 	if fn := e.P.ByKey[key]; fn != nil {
-		rs := fn.Signature.Results()
-		if rs.Len() != 1 {
-			e.fail("fn(%s): exactly one result required", key)
-		}
-		rt = rs.At(0).Type()
+		rt = pick(fn.Signature.Results())
 	} else if m := e.P.ifaceMethod(key); m != nil {
-		rs := m.Type().(*types.Signature).Results()
-		if rs.Len() != 1 {
-			e.fail("fn(%s): exactly one result required", key)
-		}
-		rt = rs.At(0).Type()
+		rt = pick(m.Type().(*types.Signature).Results())
 	} else {
 		e.fail("fn(%s): unknown function", key)
 	}
